@@ -35,7 +35,7 @@ fn flat(width: u32) -> Vec<Reg> {
     (1..=width).map(|t| Reg::Sys { tag: t, name: format!("s{}", t), deps: vec![], reads: vec![], writes: vec![100 + t], time: 3, kind: SysKind::Dynamic }).collect()
 }
 
-/// cfg: user | default | batch | async | foreign | asyncforeign | asyncdouble | defbatch | batchfirst ; returns "arrived=<max simultaneously inside>;timeout=<0|1>;ok=<0|1>" per repetition
+/// cfg: user | default | batch | async | foreign | defforeign (default pool) | asyncforeign | asyncdefforeign | asyncdouble | defbatch | batchfirst ; returns "arrived=<max simultaneously inside>;timeout=<0|1>;ok=<0|1>" per repetition
 pub fn observe(cfg: &str, width: u32, pool_size: usize, reps: u32, limit_ms: u64) -> String {
     let rec = Recorder::new(MapMode::B);
     rec.set_caller();
@@ -51,7 +51,7 @@ pub fn observe(cfg: &str, width: u32, pool_size: usize, reps: u32, limit_ms: u64
         v.extend(flat(width));
         v
     } else { flat(width) };
-    let out = if cfg == "default" || cfg == "defbatch" { build(&regs, &rec, None) }
+    let out = if cfg == "default" || cfg == "defbatch" || cfg == "defforeign" || cfg == "asyncdefforeign" { build(&regs, &rec, None) }
     else if cfg == "batchfirst" {
         // the batch is registered BEFORE the user pool is attached (add_batch builds the inner dispatcher at once, which
         // creates a default pool in the shared cell - kept tiny here); add_pool afterwards must reach the batch too
@@ -66,16 +66,16 @@ pub fn observe(cfg: &str, width: u32, pool_size: usize, reps: u32, limit_ms: u64
     let rv = Arc::new(Rendezvous { width: width as usize, arrived: Mutex::new((0, 0)), cv: Condvar::new(), limit: Duration::from_millis(limit_ms),
                                    timed_out: Mutex::new(false), max_seen: Mutex::new(0) });
     let mut res = Vec::new();
-    if cfg == "async" || cfg == "asyncforeign" || cfg == "asyncdouble" {
+    if cfg == "async" || cfg == "asyncforeign" || cfg == "asyncdouble" || cfg == "asyncdefforeign" {
         let world = make_world(&regs, MapMode::B);
         let mut ad = builder.build_async(world);
         let _ = catch_unwind(AssertUnwindSafe(|| ad.setup()));
         rec.set_sched(rv.clone());
-        let outer1 = if cfg == "asyncforeign" { Some(rayon::ThreadPoolBuilder::new().num_threads(1).build().unwrap()) } else { None };
+        let outer1 = if cfg == "asyncforeign" || cfg == "asyncdefforeign" { Some(rayon::ThreadPoolBuilder::new().num_threads(1).build().unwrap()) } else { None };
         for _ in 0..reps {
             rv.reset(); *rv.max_seen.lock().unwrap() = 0;
             // asyncforeign: dispatch() and wait() are called from the only worker of ANOTHER rayon pool
-            let r = if cfg == "asyncforeign" {
+            let r = if cfg == "asyncforeign" || cfg == "asyncdefforeign" {
                 // (the dispatcher type is not Send because it may hold thread-local systems: it holds none here)
                 struct SendPtr<T>(*mut T);
                 unsafe impl<T> Send for SendPtr<T> {}
@@ -89,7 +89,7 @@ pub fn observe(cfg: &str, width: u32, pool_size: usize, reps: u32, limit_ms: u64
             res.push(format!("arrived={}:timeout={}:ok={}", *rv.max_seen.lock().unwrap(), *rv.timed_out.lock().unwrap() as u8, r.is_ok() as u8));
             if *rv.timed_out.lock().unwrap() { break; }
         }
-    } else if cfg == "foreign" {
+    } else if cfg == "foreign" || cfg == "defforeign" {
         // the dispatcher has its own pool, but dispatch is called from the only worker of ANOTHER rayon pool
         // (a system of an outer dispatcher driving a nested dispatcher, or user code inside `install` / `spawn`)
         let mut d = match builder.build().try_into_sendable() { Ok(d) => d, Err(_) => return "builderr".into() };
